@@ -3,6 +3,8 @@ from .. import schemerules as R, reviewed
 from . import c19
 
 EXPLANATION = (
+    'Data (every shipped scheme.yaml): D02.7 remaps are chain-free (one pass is the whole substitution); D02.8 no two centre patterns and no two correction descriptors share a pattern text; D02.9 a named centre carries the same name as a neighbour. '
+
     "The bookkeeping around the matcher in GroupAdd/Scheme.py. R02.1: on "
     "both input forms GetDescriptors runs AddHs, Kekulize, the weak-bond "
     "rewrite, aromatic perception, centre assignment, group assignment and "
@@ -60,4 +62,9 @@ def run(chk, repo, tier):
         _rv.check(chk, 'R02.6', repo, 'pgradd/RDkitWrapper/MolQuery.py', q,
                   '%s is unchanged from its reviewed reference' % q)
     R.message_concat_types(chk, repo, 'R02.2', [R.SCH, 'pgradd/Error.py'])
+    # ---- the scheme files themselves ------------------------------------
+    from .. import dataaudit
+    dataaudit.remaps_chain_free(chk, repo, 'D02.7')
+    dataaudit.patterns_distinct(chk, repo, 'D02.8')
+    dataaudit.periph_convention(chk, repo, 'D02.9')
 
